@@ -1,4 +1,5 @@
-import RosuModel.Lemmas.GenStateExactWrap
+import RosuModel.Lemmas.GenStateExactMania2
+import RosuModel.Lemmas.GenStateExactRat
 import Mathlib.Data.Rat.Floor
 
 /-!
@@ -13,8 +14,11 @@ Counts are bounded by `u32::MAX` as in the Rust code.
 * `taiko_optimal`, `catch_tiny_optimal`, `osu_n300_given_optimal`, `osu_n100_given_optimal`,
   `osu_n50_given_optimal`, `osu_none_given_optimal` : **global** optimality of the generated state.
 * `osu_shift_preserves_acc`, `mania_shift_preserves_acc` : the priority shifts do not move accuracy.
-* `mania_selected_is_best_of_window`, `mania_generated_acc` : mania returns the best *enumerated*
-  candidate (global optimality is not claimed for mania).
+* `mania_none_given_optimal` : **global** optimality of mania's nested search when no hit result is
+  provided (classic and lazer weights), via `Lemmas/GenStateExactMania2.lean`.
+* `mania_selected_is_best_of_window`, `mania_generated_acc` : for *every* arm with at least two open
+  hit results mania returns the best *enumerated* candidate (global optimality with some results
+  provided is outside the property's quantifier; see `ManiaProvidedOptimal` below).
 -/
 
 set_option linter.unusedSectionVars false
@@ -102,12 +106,18 @@ theorem taiko_optimal (S acc : K) (h0 : 0 ≤ acc) (h1 : acc ≤ 1) (hS : 1 < S)
 
 /-! ## catch -/
 
-/-- Accuracy given, tiny droplets and tiny droplet misses open: the two sum to `n_tiny_droplets`,
-the search adds no failing check, `fruits + droplets + misses = n_fruits + n_droplets`, and no
-`t ≤ n_tiny_droplets` is strictly closer to the target accuracy. -/
-theorem catch_tiny_optimal (S acc : K) (h0 : 0 ≤ acc) (h1 : acc ≤ 1) (hS : 1 < S) (c : CatchCfg)
-    (b : CatchB K) (hacc : b.acc = some acc) (ht : b.tiny = none) (htm : b.tinyMisses = none)
-    (hsmall : c.nTiny ≤ u32Max) (hfd : c.nFruits + c.nDroplets ≤ u32Max) :
+/-- Whenever `catchTiny` runs `find_best_tiny_droplets` (hypothesis `hH`): the two tiny counts
+sum to `n_tiny_droplets`, the search adds no failing check,
+`fruits + droplets + misses = n_fruits + n_droplets`, and no `t ≤ n_tiny_droplets` is strictly
+closer to the target accuracy. -/
+theorem catch_tiny_search_optimal (S acc : K) (h0 : 0 ≤ acc) (h1 : acc ≤ 1) (hS : 1 < S) (c : CatchCfg)
+    (b : CatchB K) (hsmall : c.nTiny ≤ u32Max) (hfd : c.nFruits + c.nDroplets ≤ u32Max)
+    (hH : ∀ fruits droplets misses,
+      @catchTiny K (fieldOps S) b c.nFruits c.nDroplets c.nTiny fruits droplets misses
+        = ((@catchFindTiny K (fieldOps S) acc c.nFruits c.nDroplets c.nTiny fruits droplets misses).val.1,
+           (@catchFindTiny K (fieldOps S) acc c.nFruits c.nDroplets c.nTiny fruits droplets misses).val.2,
+           (@catchFindTiny K (fieldOps S) acc c.nFruits c.nDroplets c.nTiny fruits droplets misses).hit,
+           (@catchFindTiny K (fieldOps S) acc c.nFruits c.nDroplets c.nTiny fruits droplets misses).ok)) :
     let o := @catchGenRaw K (fieldOps S) c b
     let s := o.state
     o.accepted = true ∧
@@ -124,8 +134,7 @@ theorem catch_tiny_optimal (S acc : K) (h0 : 0 ≤ acc) (h1 : acc ≤ 1) (hS : 1
   have hinv := catchFruitsDroplets_sum c.nFruits c.nDroplets s.misses b.fruits b.droplets
     (by rw [emis]; exact hm) hfd
   have hinv' : s.fruits + s.droplets + s.misses = c.nFruits + c.nDroplets := hinv
-  have hH := catchTiny_search S acc b c.nFruits c.nDroplets c.nTiny s.fruits s.droplets s.misses
-    hacc ht htm
+  have hH := hH s.fruits s.droplets s.misses
   obtain ⟨k1, k2, k3, k4⟩ := catchFindTiny_spec S acc h0 h1 hS c.nFruits c.nDroplets c.nTiny
     s.fruits s.droplets s.misses hinv' hsmall
   have et : s.tiny = (@catchFindTiny K (fieldOps S) acc c.nFruits c.nDroplets c.nTiny s.fruits
@@ -146,6 +155,47 @@ theorem catch_tiny_optimal (S acc : K) (h0 : 0 ≤ acc) (h1 : acc ≤ 1) (hS : 1
   · intro t htT
     rw [et, etm]
     exact k4 t htT
+
+/-- Accuracy given, tiny droplets and tiny droplet misses open: the two sum to `n_tiny_droplets`,
+the search adds no failing check, `fruits + droplets + misses = n_fruits + n_droplets`, and no
+`t ≤ n_tiny_droplets` is strictly closer to the target accuracy. -/
+theorem catch_tiny_optimal (S acc : K) (h0 : 0 ≤ acc) (h1 : acc ≤ 1) (hS : 1 < S) (c : CatchCfg)
+    (b : CatchB K) (hacc : b.acc = some acc) (ht : b.tiny = none) (htm : b.tinyMisses = none)
+    (hsmall : c.nTiny ≤ u32Max) (hfd : c.nFruits + c.nDroplets ≤ u32Max) :
+    let o := @catchGenRaw K (fieldOps S) c b
+    let s := o.state
+    o.accepted = true ∧
+      o.ok = (catchFruitsDroplets c.nFruits c.nDroplets s.misses b.fruits b.droplets).2.2 ∧
+      s.misses = optMin b.misses (c.nFruits + c.nDroplets) ∧
+      s.fruits + s.droplets + s.misses = c.nFruits + c.nDroplets ∧
+      s.tiny + s.tinyMisses = c.nTiny ∧
+      ∀ t ≤ c.nTiny,
+        |acc - @catchAcc K (fieldOps S) s.fruits s.droplets s.tiny s.tinyMisses s.misses|
+          ≤ |acc - @catchAcc K (fieldOps S) s.fruits s.droplets t (c.nTiny - t) s.misses| :=
+  catch_tiny_search_optimal S acc h0 h1 hS c b hsmall hfd
+    (fun f d m => catchTiny_search S acc b c.nFruits c.nDroplets c.nTiny f d m hacc ht htm)
+
+/-- Accuracy given and an *inconsistent* pair `(tiny_droplets, tiny_droplet_misses)` provided
+(their saturating sum differs from `n_tiny_droplets`): the pair is discarded and replaced by the
+optimal split, exactly as if none had been provided. -/
+theorem catch_tiny_inconsistent_pair_optimal (S acc : K) (h0 : 0 ≤ acc) (h1 : acc ≤ 1) (hS : 1 < S)
+    (c : CatchCfg) (b : CatchB K) (hacc : b.acc = some acc) (t tm : Nat) (ht : b.tiny = some t)
+    (htm : b.tinyMisses = some tm) (hne : satAdd t tm ≠ c.nTiny)
+    (hsmall : c.nTiny ≤ u32Max) (hfd : c.nFruits + c.nDroplets ≤ u32Max) :
+    let o := @catchGenRaw K (fieldOps S) c b
+    let s := o.state
+    o.accepted = true ∧
+      o.ok = (catchFruitsDroplets c.nFruits c.nDroplets s.misses b.fruits b.droplets).2.2 ∧
+      s.misses = optMin b.misses (c.nFruits + c.nDroplets) ∧
+      s.fruits + s.droplets + s.misses = c.nFruits + c.nDroplets ∧
+      s.tiny + s.tinyMisses = c.nTiny ∧
+      ∀ t' ≤ c.nTiny,
+        |acc - @catchAcc K (fieldOps S) s.fruits s.droplets s.tiny s.tinyMisses s.misses|
+          ≤ |acc - @catchAcc K (fieldOps S) s.fruits s.droplets t' (c.nTiny - t') s.misses| :=
+  catch_tiny_search_optimal S acc h0 h1 hS c b hsmall hfd (by
+    intro f d m
+    unfold catchTiny
+    simp only [hacc, ht, htm, if_neg hne])
 
 /-! ## osu!standard -/
 
@@ -413,7 +463,181 @@ theorem mania_generated_acc (S acc : K) (c : ManiaCfg) (b : ManiaB K) (hacc : b.
   rw [decide_eq_true hmis, maniaSearch_ok S x, t1]
   rfl
 
+/-- **mania, accuracy (+ optional misses) given, no hit result provided** (the arm the property
+quantifies over), classic weights 60/60/40/20/10 and lazer weights 61/60/40/20/10: a candidate is
+accepted, no check fails, the misses are as given (clamped to the objects), all judgements
+(`n_objects`, plus the hold notes for non-classic lazer) are distributed, and **no** state with
+the same misses and judgements is strictly closer to the target accuracy — the nested
+n320/n300/n200/n100 windows always contain a global optimum, and the priority shift keeps it. -/
+theorem mania_none_given_optimal (S acc : K) (h0 : 0 ≤ acc) (h1 : acc ≤ 1) (hS : 1 < S)
+    (c : ManiaCfg) (b : ManiaB K) (hacc : b.acc = some acc) (h320 : b.n320 = none)
+    (h300 : b.n300 = none) (h200 : b.n200 = none) (h100 : b.n100 = none) (h50 : b.n50 = none)
+    (hsmall : c.nObjects + c.nHoldNotes ≤ u32Max) :
+    let n₀ := min (passedU32 c.passed) c.nObjects
+    let N := if c.classic then n₀ else n₀ + c.nHoldNotes
+    let o := @maniaGenRaw K (fieldOps S) c b
+    o.accepted = true ∧ o.ok = true ∧ o.state.misses = optMin b.misses n₀ ∧ o.state.totalHits = N ∧
+      ∀ s : ManiaState, s.misses = o.state.misses → s.totalHits = N →
+        |acc - @maniaAcc K (fieldOps S) c.classic o.state|
+          ≤ |acc - @maniaAcc K (fieldOps S) c.classic s| := by
+  intro n₀ N o
+  have hunk : 2 ≤ b.unknowns := by
+    unfold ManiaB.unknowns
+    rw [h320, h300, h200, h100, h50]
+    decide
+  obtain ⟨g1, g2, g3, g4, g5⟩ := mania_generated_acc S acc c b hacc hunk
+  have hm : optMin b.misses n₀ ≤ n₀ := optMin_le _ _
+  have hn₀ : n₀ ≤ c.nObjects := Nat.min_le_right _ _
+  have hmN : optMin b.misses n₀ ≤ N := by
+    show _ ≤ (if c.classic then n₀ else n₀ + c.nHoldNotes)
+    split <;> omega
+  have hNs : N ≤ u32Max := by
+    show (if c.classic then n₀ else n₀ + c.nHoldNotes) ≤ u32Max
+    split <;> omega
+  obtain ⟨s1, _, s3, s4, s5⟩ := maniaSearch_none_spec S hS acc h0 h1 c.classic N
+    (N - optMin b.misses n₀) (optMin b.misses n₀) (by omega) hNs
+  rw [← maniaCtxOf_none S acc c b h320 h300 h200 h100 h50] at s1 s3 s4 s5
+  refine ⟨g2.trans s1, g1, g4.trans s3, g3.trans s4, ?_⟩
+  intro s hsm hst
+  rw [g5]
+  exact s5 s (hsm.trans (g4.trans s3)) hst
+
 end C13
+
+/-- **Open statement** (not proved, outside the property's quantifier; measured by the harness on
+every pattern): global optimality of *every* mania search arm — accuracy given, at least two hit
+results open, the provided ones jointly fitting — among the completions of the provided results.
+`mania_none_given_optimal` is the instance with nothing provided; for the other 25 patterns only
+`mania_selected_is_best_of_window` is proved. -/
+def ManiaProvidedOptimal (K : Type) [Field K] [LinearOrder K] [IsStrictOrderedRing K] [FloorRing K] : Prop :=
+  ∀ (S acc : K) (c : ManiaCfg) (b : ManiaB K), 0 ≤ acc → acc ≤ 1 → 1 < S → b.acc = some acc →
+    2 ≤ b.unknowns → c.nObjects + c.nHoldNotes ≤ u32Max →
+    let n₀ := min (passedU32 c.passed) c.nObjects
+    let N := if c.classic then n₀ else n₀ + c.nHoldNotes
+    let o := @maniaGenRaw K (fieldOps S) c b
+    b.n320.getD 0 + b.n300.getD 0 + b.n200.getD 0 + b.n100.getD 0 + b.n50.getD 0
+        + optMin b.misses n₀ ≤ N →
+    o.accepted = true ∧ o.ok = true ∧ o.state.misses = optMin b.misses n₀ ∧ o.state.totalHits = N ∧
+      ∀ s : ManiaState, s.misses = o.state.misses → s.totalHits = N →
+        (∀ v, b.n320 = some v → s.n320 = v) → (∀ v, b.n300 = some v → s.n300 = v) →
+        (∀ v, b.n200 = some v → s.n200 = v) → (∀ v, b.n100 = some v → s.n100 = v) →
+        (∀ v, b.n50 = some v → s.n50 = v) →
+        |acc - @maniaAcc K (fieldOps S) c.classic o.state|
+          ≤ |acc - @maniaAcc K (fieldOps S) c.classic s|
+
+/-! ## Inventory of arms: which arms are accuracy-driven at all
+
+Every arm of the four generators is one of
+* **search arm, proved optimal** — `taiko_optimal` (n300, n100 open), `catch_tiny_optimal` and
+  `catch_tiny_inconsistent_pair_optimal` (tiny droplets), `osu_none_given_optimal`,
+  `osu_n300_given_optimal`, `osu_n100_given_optimal`, `osu_n50_given_optimal` (all three score
+  origins, any slider-end / tick values), `mania_none_given_optimal` (classic and lazer);
+* **not accuracy-driven** — the generated state does not depend on the *value* of the accuracy
+  (theorems below: the remaining results are forced by the object count, or filled by priority);
+  catch fruits/droplets/misses/combo and the osu slider parts never read the accuracy;
+* **search arm, open** — mania with accuracy, at least one hit result provided and at least two
+  open (25 patterns × 2 weight systems): `mania_selected_is_best_of_window` holds, global optimality
+  among the completions of the provided results is measured by the harness only. These arms are
+  outside the property's quantifier ("no individual hit results"). -/
+
+/-- number of provided osu hit results -/
+def osuProvided {R : Type} (b : OsuB R) : Nat :=
+  (if b.n300.isSome then 1 else 0) + (if b.n100.isSome then 1 else 0) + (if b.n50.isSome then 1 else 0)
+
+/-- mania, at most one hit result open: the state does not depend on the accuracy's value -/
+theorem mania_acc_value_irrelevant {R : Type} [NumOps R] (c : ManiaCfg) (b : ManiaB R) (acc acc' : R)
+    (h : b.unknowns ≤ 1) :
+    maniaGenRaw c { b with acc := some acc } = maniaGenRaw c { b with acc := some acc' } := by
+  obtain ⟨a0, a1, a2, a3, a4, a5, a6⟩ := b
+  cases a1 <;> cases a2 <;> cases a3 <;> cases a4 <;> cases a5 <;>
+    first
+      | rfl
+      | (exfalso; simp [ManiaB.unknowns] at h)
+
+/-- osu, at least two of n300/n100/n50 provided: the state does not depend on the accuracy's value -/
+theorem osu_acc_value_irrelevant {R : Type} [NumOps R] (c : OsuCfg) (b : OsuB R) (acc acc' : R)
+    (h : 2 ≤ osuProvided b) :
+    osuGenRaw c { b with acc := some acc } = osuGenRaw c { b with acc := some acc' } := by
+  obtain ⟨a0, a1, a2, a3, a4, a5, a6, a7, a8⟩ := b
+  cases a5 <;> cases a6 <;> cases a7 <;>
+    first
+      | rfl
+      | (exfalso; simp [osuProvided] at h)
+
+/-- osu: combo, misses and the slider parts (slider ends, large and small ticks) never depend on
+the accuracy -/
+theorem osu_slider_parts_acc_free {R : Type} [NumOps R] (c : OsuCfg) (b : OsuB R) (a a' : Option R) :
+    let s := (osuGenRaw c { b with acc := a }).state
+    let s' := (osuGenRaw c { b with acc := a' }).state
+    s.maxCombo = s'.maxCombo ∧ s.misses = s'.misses ∧ s.sliderEndHits = s'.sliderEndHits ∧
+      s.largeTickHits = s'.largeTickHits ∧ s.smallTickHits = s'.smallTickHits :=
+  ⟨rfl, rfl, rfl, rfl, rfl⟩
+
+/-- taiko, n300 or n100 provided: the state does not depend on the accuracy's value -/
+theorem taiko_acc_value_irrelevant {R : Type} [NumOps R] (c : TaikoCfg) (b : TaikoB R) (acc acc' : R)
+    (h : b.n300.isSome ∨ b.n100.isSome) :
+    taikoGenRaw c { b with acc := some acc } = taikoGenRaw c { b with acc := some acc' } := by
+  obtain ⟨a0, a1, a2, a3, a4⟩ := b
+  cases a2 <;> cases a3 <;>
+    first
+      | rfl
+      | (exfalso; simp at h)
+
+/-- catch: fruits, droplets, misses and combo never depend on the accuracy (provided or not) -/
+theorem catch_fruits_droplets_acc_free {R : Type} [NumOps R] (c : CatchCfg) (b : CatchB R)
+    (a a' : Option R) :
+    let s := (catchGenRaw c { b with acc := a }).state
+    let s' := (catchGenRaw c { b with acc := a' }).state
+    s.fruits = s'.fruits ∧ s.droplets = s'.droplets ∧ s.misses = s'.misses ∧ s.maxCombo = s'.maxCombo :=
+  ⟨rfl, rfl, rfl, rfl⟩
+
+/-- catch, exactly one of the tiny counts provided, or a consistent pair: the state does not
+depend on the accuracy's value -/
+theorem catch_acc_value_irrelevant {R : Type} [NumOps R] (c : CatchCfg) (b : CatchB R) (acc acc' : R)
+    (h : (b.tiny.isSome ∧ b.tinyMisses.isNone) ∨ (b.tiny.isNone ∧ b.tinyMisses.isSome) ∨
+      (∃ t tm, b.tiny = some t ∧ b.tinyMisses = some tm ∧ satAdd t tm = c.nTiny)) :
+    catchGenRaw c { b with acc := some acc } = catchGenRaw c { b with acc := some acc' } := by
+  obtain ⟨a0, a1, a2, a3, a4, a5, a6⟩ := b
+  cases a4 <;> cases a5
+  · exfalso; simp at h
+  · rfl
+  · rfl
+  · rcases h with h | h | ⟨t, tm, ht, htm, hs⟩
+    · simp at h
+    · simp at h
+    · simp only [Option.some.injEq] at ht htm
+      subst ht htm
+      unfold catchGenRaw catchTiny
+      simp only [hs, if_true]
+
+/-- the number of mania search arms (accuracy given, at least two hit results open) among the 32
+provided-patterns is 26: one is `mania_none_given_optimal`, 25 are open -/
+theorem mania_search_arm_count :
+    ((List.range 32).filter fun bits =>
+      decide (2 ≤ (List.range 5).countP fun i => bits / 2 ^ i % 2 == 0)).length = 26 := by
+  decide
+
+/-! ## The executable exact instance
+
+The driver answers `GSQ` request lines with the instance `ratOps` (core `Rat`); it *is* the
+instance `fieldOps 2` at `K = ℚ`, so every optimality theorem above speaks about what the driver
+computes, and the harness compares that with its brute-force optimum on every `GSQ` line. -/
+
+theorem driver_exact_instance : ratOps = fieldOps (2 : ℚ) := ratOps_eq_fieldOps
+
+/-- e.g. mania: the state the driver's exact instance generates is globally optimal -/
+theorem mania_none_given_optimal_driver (acc : ℚ) (h0 : 0 ≤ acc) (h1 : acc ≤ 1)
+    (c : ManiaCfg) (b : ManiaB ℚ) (hacc : b.acc = some acc) (h320 : b.n320 = none)
+    (h300 : b.n300 = none) (h200 : b.n200 = none) (h100 : b.n100 = none) (h50 : b.n50 = none)
+    (hsmall : c.nObjects + c.nHoldNotes ≤ u32Max) :
+    let o := @maniaGenRaw ℚ ratOps c b
+    o.accepted = true ∧ o.ok = true ∧
+      ∀ s : ManiaState, s.misses = o.state.misses → s.totalHits = o.state.totalHits →
+        |acc - @maniaAcc ℚ ratOps c.classic o.state| ≤ |acc - @maniaAcc ℚ ratOps c.classic s| := by
+  rw [driver_exact_instance]
+  obtain ⟨k1, k2, _, k4, k5⟩ := mania_none_given_optimal (2 : ℚ) acc h0 h1 (by norm_num) c b hacc
+    h320 h300 h200 h100 h50 hsmall
+  exact ⟨k1, k2, fun s hm ht => k5 s hm (ht.trans k4)⟩
 
 /-! ## Non-vacuity: the hypotheses are satisfiable (over `ℚ`, sentinel `2`) -/
 
@@ -475,5 +699,37 @@ example :
     let b : ManiaB ℚ := ⟨some (93 / 100), none, none, none, none, none, some 3⟩
     b.acc = some (93 / 100) ∧ 2 ≤ b.unknowns :=
   ⟨rfl, by decide⟩
+
+/-- `mania_none_given_optimal` instantiated (lazer weights, 3 hold notes, 2 misses). -/
+example :
+    (@maniaGenRaw ℚ (fieldOps 2) ⟨20, 3, none, false, .best⟩
+      ⟨some (937 / 1000), none, none, none, none, none, some 2⟩).accepted = true :=
+  (mania_none_given_optimal (2 : ℚ) (937 / 1000) (by norm_num) (by norm_num) (by norm_num)
+    ⟨20, 3, none, false, .best⟩ ⟨some (937 / 1000), none, none, none, none, none, some 2⟩
+    rfl rfl rfl rfl rfl rfl (by decide)).1
+
+/-- concrete generated states of the exact instance, lazer and classic (cross-check) -/
+example :
+    (@maniaGenRaw ℚ (fieldOps 2) ⟨20, 3, none, false, .best⟩
+      ⟨some (937 / 1000), none, none, none, none, none, some 2⟩).state.totalHits = 23 := by
+  decide +kernel
+
+example :
+    (@maniaGenRaw ℚ (fieldOps 2) ⟨20, 3, none, true, .worst⟩
+      ⟨some (937 / 1000), none, none, none, none, none, some 2⟩).state.totalHits = 20 := by
+  decide +kernel
+
+/-- hypotheses of `catch_tiny_inconsistent_pair_optimal` are satisfiable, and the pair is replaced -/
+example :
+    satAdd 1 1 ≠ (⟨100, 80, 50⟩ : CatchCfg).nTiny ∧
+    (@catchGenRaw ℚ (fieldOps 2) ⟨100, 80, 50⟩
+      ⟨some (93 / 100), none, none, none, some 1, some 1, some 3⟩).state = ⟨177, 100, 77, 37, 13, 3⟩ := by
+  decide +kernel
+
+/-- hypotheses of the inventory theorems are satisfiable -/
+example :
+    (⟨some (1 / 2 : ℚ), some 1, some 2, some 3, some 4, none, none⟩ : ManiaB ℚ).unknowns ≤ 1 ∧
+    2 ≤ osuProvided (⟨some (1 / 2 : ℚ), none, none, none, none, some 3, none, some 1, none⟩ : OsuB ℚ) :=
+  ⟨by decide, by decide⟩
 
 end Rosu.GenState.Opt
